@@ -269,7 +269,7 @@ fn dfs<W: World>(
             stats.per_depth.resize(depth + 1, 0);
         }
         stats.per_depth[depth] += 1;
-        if stats.samples.len() < 3 && depth >= 3 && (stats.executions % 97 == 3) {
+        if stats.samples.len() < 3 && depth >= 1 && (depth >= 3 || b.depth <= 2) && (stats.executions % 97 == 3 || stats.executions < 3) {
             stats.samples.push(r.history.clone());
         }
     }
